@@ -84,26 +84,27 @@ theorem onTest_delta (s : PState) (ok : Bool) (num : Option (List Char)) (name :
       · rcases he with he | he <;> subst he <;> rfl
   have hcl : (parseTest ok n name dir expl).countP isLateErr = 0 := by
     rw [List.countP_eq_zero]; intro e he; simp [hlate e he]
-  cases hl : lateNow s <;> cases hx : exceedsPlan s n
+  have hnf : ∀ e ∈ (if lateNow s then [Event.error .lateTest] else []) ++
+      (if numTooLong num then [Event.error .testNumberTooLarge] else []) ++
+      (if exceedsPlan s n then [Event.error .exceedsPlan] else []) ++ parseTest ok n name dir expl,
+      isFinalErr e = false := by
+    intro e he
+    simp only [List.mem_append] at he
+    rcases he with ((he | he) | he) | he
+    · split at he <;> simp at he; subst he; rfl
+    · split at he <;> simp at he; subst he; rfl
+    · split at he <;> simp at he; subst he; rfl
+    · exact sh.noFinal e he
+  cases hl : lateNow s <;> cases hx : exceedsPlan s n <;> cases hz : numTooLong num
   all_goals
     constructor
-    · simp [hl, hx, sh.count, isTestEvent]
-    · simp [hl, hx, sh.maxN, numberOf]
-    · simp [hl, hx, sh.plan, planOf_append, planOf]
-    · simp [hl, hx, sh.bail, isBailEvent]
-    · intro e he
-      simp [hl, hx] at he
-      first
-        | exact sh.noFinal e he
-        | (rcases he with he | he
-           · subst he; rfl
-           · exact sh.noFinal e he)
-        | (rcases he with he | he | he
-           · subst he; rfl
-           · subst he; rfl
-           · exact sh.noFinal e he)
-    · simp [hl, hx, planSlot, sh.plans, isPlanEvent]
-    · simp [hl, hx, lateSlot, hcl, List.countP_cons, isLateErr]
+    · simp [hl, hx, hz, sh.count, isTestEvent]
+    · simp [hl, hx, hz, sh.maxN, numberOf]
+    · simp [hl, hx, hz, sh.plan, planOf_append, planOf]
+    · simp [hl, hx, hz, sh.bail, isBailEvent]
+    · simpa [hl, hx, hz] using hnf
+    · simp [hl, hx, hz, planSlot, sh.plans, isPlanEvent]
+    · simp [hl, hx, hz, lateSlot, hcl, List.countP_cons, isLateErr]
       first
         | done
         | (unfold lateNow at hl; split at hl <;> simp_all)
